@@ -66,7 +66,9 @@ def cssStyles (cs : List Char) : Option (List Char × List Char) :=
 
 /-- `class_and_style()` -/
 def classAndStyle (cs : List Char) : Option ((List Char × List Char) × List Char) :=
-  match ident (skipSpace cs) with
+  -- the leading `-space()` of the code is pom's look-ahead (`Neg`): it consumes nothing, so an
+  -- entry has to start with its identifier
+  match ident cs with
   | none => none
   | some (name, cs1) =>
     match sym '=' (skipSpace cs1) with
@@ -74,7 +76,7 @@ def classAndStyle (cs : List Char) : Option ((List Char × List Char) × List Ch
     | some cs2 =>
       match cssStyles (skipSpace cs2) with
       | none => none
-      | some (decl, cs3) => some ((name, decl), cs3)
+      | some (decl, cs3) => some ((name, decl), skipSpace cs3)
 
 theorem sym_length {c : Char} {cs r : List Char} (h : sym c cs = some r) :
     r.length < cs.length := by
@@ -134,9 +136,9 @@ theorem classAndStyle_length {cs r : List Char} {x : List Char × List Char}
       · rename_i decl cs3 h3
         simp at h; obtain ⟨_, rfl⟩ := h
         have := ident_length h1; have := sym_length h2; have := cssStyles_length h3
-        have := dropWhile_length_le isSpaceTab cs
         have := dropWhile_length_le isSpaceTab cs1
         have := dropWhile_length_le isSpaceTab cs2
+        have := dropWhile_length_le isSpaceTab cs3
         simp only [skipSpace] at *; omega
 
 /-- the `while let Ok(sep) … match item` loop of pom's `list`: returns the further items and
@@ -175,8 +177,12 @@ def parseCssLegend (cs : List Char) : Option (List (List Char × List Char)) :=
     | none => none
     | some cs2 =>
       match newLine (skipSpace cs2) with
-      | none => none
       | some cs3 => some (cssStyleList cs3).1
+      | none =>
+        -- `new_line() | end()`: a header that ends the document is an empty legend
+        match skipSpace cs2 with
+        | [] => some []
+        | _ :: _ => none
 
 /-- the `while let Ok(sep)` loop of `list(ident(), sym(','))` (fuel: see `styleListMore`) -/
 def classesMore : Nat → List Char → List (List Char) × List Char
